@@ -54,8 +54,8 @@ pub enum Preflight {
 /// them - specification program first, then the program; tau*, replace_placeholders, completion,
 /// then the formulas left to right - with the fixpoint loop bounded.  Returns the first event.
 /// Only meaningful when `decompose` reaches the translations (validation passed).
-/// The empty completed definitions appended for missing output predicates (since /repo 70e6ace)
-/// are left out: `p(V..) <-> #false` is a fixpoint of the portfolio (no panic, no further pass),
+/// The empty completed definitions appended for missing output predicates (since /repo 70e6ace;
+/// since 18b2e85 only for those that occur on some side of the task) are left out: `p(V..) <-> #false` is a fixpoint of the portfolio (no panic, no further pass),
 /// so they never are the first event.
 pub fn preflight(task: &ExternalEquivalenceTask) -> Preflight {
     let placeholders: IndexMap<String, fol::FunctionConstant> =
